@@ -366,6 +366,8 @@ func (sr *syncRun) ordinary(from uint32) {
 			sig := "sync-lockstep-root"
 			if r.oracleOriginalTxNotKept(sr.T, x) {
 				sig += "+oracle-original-tx-not-kept"
+			} else if r.ledgerVMStateOfBlockUpTo(x, sr.P) {
+				sig += "+ledger-vmstate-of-unexecuted-tx"
 			}
 			r.violate(sim.Violatef("sync-lockstep-root", sig, "after state synchronisation at %d: state root at height %d is %v (%v), expected %s", sr.P, x, got, err, r.ref[x].Detail["stateroot"]))
 			return
@@ -677,6 +679,10 @@ func (sr *syncRun) crashJump() {
 						for y := sr.P + 1; y < x; y++ {
 							if r.oracleOriginalTxNotKept(n, y) {
 								sig += "+oracle-original-tx-not-kept"
+								break
+							}
+							if r.ledgerVMStateOfBlockUpTo(y, sr.P) {
+								sig += "+ledger-vmstate-of-unexecuted-tx"
 								break
 							}
 						}
